@@ -1638,7 +1638,8 @@ func (schema *Schema) visitJSONNumber(settings *schemaValidationSettings, value 
 	if v := schema.MultipleOf; v != nil {
 		// "A numeric instance is valid only if division by this keyword's
 		//    value results in an integer."
-		if bigFloat := big.NewFloat(value / *v); !bigFloat.IsInt() {
+		// a zero multipleOf has no multiples (and 0/0 is NaN, which big.NewFloat rejects with a panic)
+		if *v == 0 || !big.NewFloat(value / *v).IsInt() {
 			if settings.failfast {
 				return errSchema
 			}
